@@ -43,6 +43,12 @@ Lemma rbind_assoc {A B C : Type} (o : res A) (f : A -> res B) (g : B -> res C) :
   rbind (rbind o f) g = rbind o (fun x => rbind (f x) g).
 Proof. destruct o; reflexivity. Qed.
 
+Lemma filter_nil_forall {A : Type} (p : A -> bool) l : filter p l = [] -> forall x, In x l -> p x = false.
+Proof.
+  induction l as [|a r IH]; intros H x Hx; [destruct Hx|]. cbn [filter] in H.
+  destruct (p a) eqn:E; [discriminate|]. destruct Hx as [<-|Hx]; [exact E | apply IH; assumption].
+Qed.
+
 Section ExplodeGen.
   Variable rec : node -> res node.
 
@@ -153,9 +159,18 @@ Section ExplodeGen.
     eapply override_all_k_gen; eassumption.
   Qed.
 
+  Definition provides (jt : nat * node) : bool := existsb (str_eqb k) (keys (src_entries (snd jt))).
+
+  Lemma provides_in jt : provides jt = true <-> In k (keys (src_entries (snd jt))).
+  Proof.
+    unfold provides. rewrite existsb_exists. split.
+    - intros (x & Hx & E). apply str_eqb_eq in E. subst. exact Hx.
+    - intros H. exists k. split; [exact H | apply str_eqb_refl].
+  Qed.
+
   Lemma apply_seq_rev_k_gen (L : list (nat * node)) : forall acc acc',
     (forall jt, In jt L -> NoDup (keys (src_entries (snd jt)))) ->
-    ForallOrdPairs (fun a b => ~ (In k (keys (src_entries (snd a))) /\ In k (keys (src_entries (snd b))))) L ->
+    length (filter provides L) <= 1 ->
     ((exists jt, In jt L /\ In k (keys (src_entries (snd jt)))) ->
        lookup_entry k acc = None /\ forall n, later_has texts n k = false) ->
     apply_seq_rev rec texts (map (fun jt => (fst jt, Al (snd jt))) L) acc = ROk acc' ->
@@ -165,7 +180,12 @@ Section ExplodeGen.
     induction L as [|[j t] r IH]; intros acc acc' Hn Hd Hk H; cbn [map apply_seq_rev fst snd lookup_first] in *.
     - injection H as <-. reflexivity.
     - apply rbind_ok in H as (acc1 & H1 & H).
-      inversion Hd as [|? ? Hhead Htail]; subst.
+      assert (Hhead : In k (keys (src_entries t)) -> forall jt, In jt r -> ~ In k (keys (src_entries (snd jt)))).
+      { intros Hin jt Hjt Hkj. cbn [filter] in Hd. apply (provides_in (j, t)) in Hin. rewrite Hin in Hd.
+        cbn [length] in Hd. assert (Hnil : filter provides r = []) by (destruct (filter provides r); [reflexivity | cbn in Hd; lia]).
+        apply provides_in in Hkj. rewrite (filter_nil_forall _ _ Hnil jt Hjt) in Hkj. discriminate. }
+      assert (Htail : length (filter provides r) <= 1).
+      { cbn [filter] in Hd. destruct (provides (j, t)); cbn [length] in Hd; lia. }
       apply apply_alias_k_gen in H1;
         [| apply (Hn (j, t)); left; reflexivity
          | intros Hin; apply Hk; exists (j, t); split; [left; reflexivity | exact Hin]].
@@ -173,10 +193,10 @@ Section ExplodeGen.
       + rewrite H, H1. destruct (lookup_entry k (src_entries t)) as [v|] eqn:Es; [|reflexivity].
         rewrite lookup_first_none; [reflexivity|].
         intro Hin. apply in_flat_map in Hin as (s & Hs & Hks). apply in_map_iff in Hs as (jt & <- & Hjt).
-        rewrite Forall_forall in Hhead. apply (Hhead jt Hjt). cbn [snd]. split; [eapply lookup_entry_in, Es | exact Hks].
+        exact (Hhead (lookup_entry_in _ _ _ Es) jt Hjt Hks).
       + intros (jt & Hjt & Hkjt). destruct (Hk (ex_intro _ jt (conj (or_intror Hjt) Hkjt))) as [Hnone Hl]. split; [|exact Hl].
         rewrite H1. rewrite lookup_entry_none; [exact Hnone|].
-        intro Hks. rewrite Forall_forall in Hhead. apply (Hhead jt Hjt). cbn [snd]. split; assumption.
+        intro Hks. exact (Hhead Hks jt Hjt Hkjt).
   Qed.
 End ExplodeGen.
 
@@ -191,7 +211,10 @@ Proof.
 Qed.
 
 Lemma mem_false k l : mem k l = false <-> ~ In k l.
-Proof. rewrite <- mem_in. destruct (mem k l); split; intros H; try congruence; try discriminate. exfalso. apply H. reflexivity. Qed.
+Proof.
+  rewrite <- mem_in. destruct (mem k l); split; intros H; try congruence; try discriminate;
+    try (exfalso; apply H; reflexivity).
+Qed.
 
 Lemma nodupb_NoDup l : nodupb l = true -> NoDup l.
 Proof.
@@ -200,10 +223,12 @@ Proof.
   constructor; [apply mem_false, H1 | apply IH, H2].
 Qed.
 
-Lemma filter_nil_forall {A : Type} (p : A -> bool) l : filter p l = [] -> forall x, In x l -> p x = false.
+Lemma disjoint_filter_nil k a r : In k a -> forallb (disjointb a) r = true -> filter (mem k) r = [].
 Proof.
-  induction l as [|a r IH]; intros H x Hx; [destruct Hx|]. cbn [filter] in H.
-  destruct (p a) eqn:E; [discriminate|]. destruct Hx as [<-|Hx]; [exact E | apply IH; assumption].
+  intros E. induction r as [|b r' IH]; intros H; [reflexivity|].
+  cbn [forallb] in H. apply andb_true_iff in H as [Hab H]. cbn [filter].
+  unfold disjointb in Hab. rewrite forallb_forall in Hab. specialize (Hab k E). apply negb_true_iff in Hab.
+  rewrite Hab. apply IH, H.
 Qed.
 
 Lemma pairwise_disjoint_count k ls : pairwise_disjointb ls = true -> length (filter (mem k) ls) <= 1.
@@ -211,12 +236,7 @@ Proof.
   induction ls as [|a r IH]; intros H; [cbn; lia|].
   cbn [pairwise_disjointb] in H. apply andb_true_iff in H as [H1 H2]. cbn [filter].
   destruct (mem k a) eqn:E; [|apply IH, H2].
-  assert (filter (mem k) r = []) as ->; [|cbn; lia].
-  apply mem_in in E. induction r as [|b r' IHr]; [reflexivity|].
-  cbn [forallb] in H1. apply andb_true_iff in H1 as [Hab H1]. cbn [filter].
-  cbn [pairwise_disjointb] in H2. apply andb_true_iff in H2 as [_ H2'].
-  unfold disjointb in Hab. rewrite forallb_forall in Hab. specialize (Hab k E). apply negb_true_iff in Hab.
-  rewrite Hab. apply IHr; [exact H1 | exact H2' | intros _; apply IH; exact H2' ].
+  apply mem_in in E. rewrite (disjoint_filter_nil k a r E H1). cbn. lia.
 Qed.
 
 Lemma all_some_Forall2 {A B : Type} (f : A -> option B) l r :
@@ -323,4 +343,70 @@ Proof.
   - destruct x as [a s|a l|a es|t]; cbn [alias_target] in H; try discriminate.
     destruct (all_some (map alias_target r)) as [ts'|]; [|discriminate]. injection H as <-.
     cbn [map]. f_equal. apply IH. reflexivity.
+Qed.
+
+(* success of the phases implies success of the child explodes *)
+Section ExplodeOk.
+  Variable rec : node -> res node.
+
+  Lemma override_entry_ok texts k0 v0 start acc acc' :
+    override_entry rec texts k0 v0 start acc = ROk acc' -> exists v', rec v0 = ROk v'.
+  Proof. unfold override_entry. intros H. apply rbind_ok in H as (v' & Hv & _). exists v'. exact Hv. Qed.
+
+  Lemma recon_explicit_ok texts r : forall i acc acc',
+    (forall kv, In kv r -> is_merge (fst kv) = false) ->
+    recon rec texts r i acc = ROk acc' -> forall kv, In kv r -> exists v', rec (snd kv) = ROk v'.
+  Proof.
+    induction r as [|[k0 v0] r' IH]; intros i acc acc' Hm H kv Hkv; [destruct Hkv|].
+    cbn [recon] in H. pose proof (Hm (k0, v0) (or_introl eq_refl)) as Hk0. cbn [fst] in Hk0. rewrite Hk0 in H.
+    apply rbind_ok in H as (acc1 & H1 & H). destruct Hkv as [<-|Hkv].
+    - eapply override_entry_ok, H1.
+    - eapply IH; [intros kv' Hkv'; apply Hm; right; exact Hkv' | exact H | exact Hkv].
+  Qed.
+
+  Lemma apply_alias_ok texts t j acc acc' :
+    apply_alias rec texts (Al t) j acc = ROk acc' -> exists a tes, rec t = ROk (Mp a tes).
+  Proof.
+    cbn [apply_alias]. intros H. apply rbind_ok in H as (t' & Ht & H).
+    destruct t' as [a s|a l|a tes|t0]; try discriminate. exists a, tes. exact Ht.
+  Qed.
+
+  Lemma apply_seq_rev_ok texts (L : list (nat * node)) : forall acc acc',
+    apply_seq_rev rec texts (map (fun jt => (fst jt, Al (snd jt))) L) acc = ROk acc' ->
+    forall jt, In jt L -> exists a tes, rec (snd jt) = ROk (Mp a tes).
+  Proof.
+    induction L as [|[j t] r IH]; intros acc acc' H jt Hjt; [destruct Hjt|].
+    cbn [map apply_seq_rev fst snd] in H. apply rbind_ok in H as (acc1 & H1 & H).
+    destruct Hjt as [<-|Hjt]; [eapply apply_alias_ok, H1 | eapply IH; eassumption].
+  Qed.
+End ExplodeOk.
+
+(* the spec side of one map *)
+Lemma spec_explicit_lookup (rs : node -> option value) k X ex :
+  all_some (map (fun kv => option_map (fun v => (fst kv, v)) (rs (snd kv))) X) = Some ex ->
+  vlookup k ex = match lookup_entry k X with Some v => rs v | None => None end
+  /\ (forall v, lookup_entry k X = Some v -> exists x, rs v = Some x).
+Proof.
+  revert ex. induction X as [|[k' v'] r IH]; intros ex H; cbn [map all_some fst snd] in H.
+  - injection H as <-. split; [reflexivity | discriminate].
+  - destruct (rs v') as [x|] eqn:Ex; cbn [option_map] in H; [|discriminate].
+    destruct (all_some _) as [ex'|] eqn:E; [|discriminate]. injection H as <-.
+    destruct (IH ex' eq_refl) as [IH1 IH2]. cbn [vlookup lookup_entry].
+    destruct (str_eqb k k'); [split; [symmetry; exact Ex | intros v Hv; injection Hv as <-; exists x; exact Ex] | split; assumption].
+Qed.
+
+Lemma spec_merge_sources (rs : node -> option value) mv ts ms :
+  merge_targets mv = Some ts -> merge_sources rs mv = Some ms ->
+  exists vss, Forall2 (fun t ves => rs t = Some (VM ves)) ts vss /\ ms = concat vss.
+Proof.
+  intros Ht Hm. destruct mv as [a s|a items|a es|t]; cbn [merge_targets] in Ht; try discriminate.
+  - apply alias_targets_items in Ht. subst items. cbn [merge_sources] in Hm.
+    destruct (all_some (map (source_entries rs) (map Al ts))) as [vss|] eqn:E; cbn [option_map] in Hm; [|discriminate].
+    injection Hm as <-. exists vss. split; [|reflexivity].
+    rewrite map_map in E. apply all_some_Forall2 in E.
+    clear - E. induction E as [|t ves l r H E IHE]; constructor; [|exact IHE].
+    cbn [source_entries] in H. destruct (rs t) as [[s|l0|es]|]; try discriminate. injection H as <-. reflexivity.
+  - injection Ht as <-. cbn [merge_sources source_entries] in Hm.
+    destruct (rs t) as [[s|l|es]|] eqn:E; try discriminate. injection Hm as <-.
+    exists [es]. split; [constructor; [exact E | constructor] | cbn; rewrite app_nil_r; reflexivity].
 Qed.
